@@ -319,6 +319,13 @@ func main() {
 		run.Fatal("AggregateBLSPublicKeys: %v", err)
 	}
 	addKey("identity-as-aggregate-of-a-and-r-a", new(big.Int), nil, idAgg)
+	// every other route to an identity public key object
+	if zsk, err := crypto.AggregateBLSPrivateKeys([]crypto.PrivateKey{aPriv, mkPriv(negA)}); err == nil {
+		addKey("identity-as-public-key-of-aggregated-private-keys-a-and-r-a", new(big.Int), nil, zsk.PublicKey())
+	}
+	if rk, err := crypto.RemoveBLSPublicKeys(aPriv.PublicKey(), []crypto.PublicKey{aPriv.PublicKey()}); err == nil {
+		addKey("identity-as-remove-a-from-a", new(big.Int), nil, rk)
+	}
 
 	tags := buildTags(run.Thorough())
 	classCount := map[string]int{}
